@@ -6,14 +6,16 @@
    Covered by theorems:   every token form (all_tokens_read_back); every expression tree: literals, identifiers,
                           unary and n-ary operators, the seven binary operators, parentheses, casts, constructor and
                           function calls, of any size and nesting up to the implementation's limit of 1000 frames
-                          (all_expressions_read_back, expression_statement_read_back); evaluation of every expression
-                          over literals, variables, unary / n-ary / binary operators and casts (evaluation_exact, ...).
-   Covered by the tie only (differential against the real parser, tools/checks/c16.py): statements other than the
-                          expression statement, declarations, compilation units -- see *_partial below. *)
+                          (all_expressions_read_back, expression_statement_read_back); every statement tree and every
+                          program made of statements (all_statements_read_back, statement_programs_read_back);
+                          evaluation of every expression over literals, variables, unary / n-ary / binary operators
+                          and casts (evaluation_exact, ...).
+   Covered by the tie only (differential against the real parser, tools/checks/c16.py): declarations (typedef, enum,
+                          class, method, predicate) and units containing them -- see program_read_back_partial. *)
 From Coq Require Import List Ascii String ZArith NArith QArith Bool.
 From ORatio Require Import gen.Gen_arith base.RatSpec base.Lin.
 From ORatio Require Import lang.Token lang.Lexer lang.Ast lang.Parser lang.Printer lang.Eval.
-From ORatio Require Import proofs.Lexer_Proofs proofs.Parser_Total_Proofs proofs.Parser_Proofs proofs.Eval_Proofs.
+From ORatio Require Import proofs.Lexer_Proofs proofs.Parser_Total_Proofs proofs.Parser_Proofs proofs.Parser_Stmt_Proofs proofs.Eval_Proofs.
 Import ListNotations.
 Local Open Scope nat_scope.
 
@@ -37,14 +39,30 @@ Theorem expression_statement_read_back : forall e,
 Proof. exact parse_expr_stmt. Qed.
 Print Assumptions expression_statement_read_back.
 
+(* Statements: reading what the printer writes for ANY statement tree -- local fields with initialisers, assignments,
+   expression statements, blocks, disjunctions with costs, facts and goals with arguments, return; nested to any depth
+   within the limit -- gives back the tree, whatever follows (except `[` and `or`, which would continue a disjunction). *)
+Theorem all_statements_read_back : forall s, wf_stmt s -> forall d rest, sneed s <= d -> stmt_tail rest ->
+  exists fuel, p_stmt fuel d (pp_stmt s ++ rest) = Ok s rest.
+Proof. exact stmt_roundtrip. Qed.
+Print Assumptions all_statements_read_back.
+
+(* Every syntactically valid program made of statements is accepted, and read back as written. *)
+Theorem statement_programs_read_back : forall ss, Forall (fun s => wf_top s /\ sneed s <= MAX_DEPTH) ss ->
+  parse (pp_unit (CU [] [] [] ss)) = Ok (CU [] [] [] ss) [].
+Proof. exact parse_statements. Qed.
+Print Assumptions statement_programs_read_back.
+
 (* FULL STATEMENT (not proved):  forall u, wf_unit u -> depth u <= MAX_DEPTH -> parse (pp_unit u) = Ok u []
-   for every compilation unit (all statement and declaration forms). Proved above for the units consisting of one
-   expression statement; the other statement forms and the declarations are modelled (lang/Parser.v, lang/Printer.v)
-   and tied to the implementation by the AST-by-AST differential, but their round trip is not a theorem. The gap:
-   an induction like expr_roundtrip_loop over stmt / type_decl. *)
-Theorem program_read_back_partial : forall e,
-  wf_expr e -> hgt e <= 999 -> parse (pp_unit (CU [] [] [] [SExpr e])) = Ok (CU [] [] [] [SExpr e]) [].
-Proof. exact parse_unit_expr_stmt. Qed.
+   for every compilation unit, i.e. including DECLARATIONS (typedef, enum, class with fields / constructors / methods /
+   predicates / nested types, methods, predicates). Proved above for the units made of statements (whose bodies of rules and
+   methods are exactly the statement lists of all_statements_read_back). Declarations are modelled (lang/Parser.v,
+   lang/Printer.v) and tied to the implementation by the tree-by-tree differential on all example programs and on
+   generated units (the model itself reads back every generated unit), but their round trip is not a theorem. The gap: the
+   analogue of stmt_roundtrip for type_decl / method_decl / pred_decl and of units_stmts for the four lists of a unit. *)
+Theorem program_read_back_partial : forall ss, Forall (fun s => wf_top s /\ sneed s <= MAX_DEPTH) ss ->
+  parse (pp_unit (CU [] [] [] ss)) = Ok (CU [] [] [] ss) [].
+Proof. exact parse_statements. Qed.
 Print Assumptions program_read_back_partial.
 
 (* Evaluation is exact: whatever an expression over literals, variables, unary, n-ary and binary operators and casts
